@@ -123,8 +123,46 @@ def run(tier="quick", seed=0, repo="/repo"):
                 ok, detail = False, f"{type(e).__name__}: {str(e)[:200]}"
             cid = f"{prefix}:{i}x{j}:" + ",".join(f"{w}.{o}" for w, o in sched)
             t.case(cid, cid, ok, function="fakesnow.cursor.FakeSnowflakeCursor._execute", case={"a": SCRIPTS[i], "b": SCRIPTS[j], "schedule": sched}, expected="reference visibility", actual=detail, sample_every=23)
+    # all cursors of a connection share its transaction, whichever thread asked for the cursor (strictly sequential use)
+    import threading
+
+    from .common import new_instance
+
+    fs = new_instance(repo)
+    conn, other = fs.connect("db1", "s1"), fs.connect("db1", "s1")
+    conn.cursor().execute("create table shared_t (i int)")
+    for mode in ("same-thread", "other-thread"):
+        box = {}
+
+        def get_cursor():
+            box["cur"] = conn.cursor()
+
+        if mode == "other-thread":
+            th = threading.Thread(target=get_cursor)
+            th.start()
+            th.join()
+        else:
+            get_cursor()
+        helper = box["cur"]
+        try:
+            conn.cursor().execute("delete from shared_t")
+            conn.cursor().execute("begin")
+            conn.cursor().execute("insert into shared_t values (1)")
+            sees_own = helper.execute("select count(*) from shared_t").fetchall() == [(1,)]
+            helper.execute("insert into shared_t values (2)")
+            hidden = other.cursor().execute("select count(*) from shared_t").fetchall() == [(0,)]
+            conn.cursor().execute("rollback")
+            rolled_back = other.cursor().execute("select count(*) from shared_t").fetchall() == [(0,)]
+            ok, detail = (sees_own and hidden and rolled_back), f"helper cursor sees the connection's uncommitted row: {sees_own}; its insert hidden from another connection before COMMIT: {hidden}; undone by ROLLBACK: {rolled_back}"
+        except Exception as e:  # noqa: BLE001
+            ok, detail = False, f"{type(e).__name__}: {str(e)[:200]}"
+            try:
+                conn.cursor().execute("rollback")
+            except Exception:  # noqa: BLE001
+                pass
+        t.case(f"cursor-thread:{mode}", ("cursor-thread", mode), ok, function="fakesnow.conn.FakeSnowflakeConnection.cursor", case={"mode": mode}, expected="one transaction per connection, shared by all of its cursors", actual=detail)
     t.exhaustive = False
-    return t.result(bound="script pairs %s; every %s-th interleaving of each pair" % (pairs, "k"))
+    return t.result(bound="script pairs %s; every %s-th interleaving of each pair; cursor obtained on the same / on another thread inside a transaction" % (pairs, "k"))
 
 
 def replay(case, repo):
